@@ -7,6 +7,7 @@
 #include <MathsIO.H>
 #include <OMMathExceptions.H>
 #include <mesh.h>
+#include <MeshIO.h>
 #include <geometry.h>
 #include <sensors.h>
 #include "wire.h"
@@ -154,23 +155,29 @@ static Wire in_child(const std::function<Wire()>& f, unsigned seconds=5, size_t 
 // ---- mesh readers (C19) ----
 static const char* MSUFFIX[] = { "tri", "off", "bnd", "mesh", "vtk", "gii" };
 static Wire meshOutcome(const char* path) {
+    // the reader alone (load_points + load_triangles), then the class of the complete Mesh::load
     Wire out;
-    Mesh mesh;
-    ll st = guarded_code([&]{ mesh.load(path,false); });
-    out.push_back(st);
-    if (st==0) {
-        const auto& vs = mesh.geometry().vertices();
-        out.push_back(mesh.vertices().size());
-        for (const auto* vp : mesh.vertices()) for (int c=0;c<3;++c) out.push_back(d2w((*vp)(c)));
-        out.push_back(mesh.triangles().size());
-        for (const auto& t : mesh.triangles()) for (int c=0;c<3;++c) {
-            // position of the triangle's vertex in the mesh's own vertex list
-            const Vertex* p = &t.vertex(c); ll idx=-1; ll k=0;
-            for (const auto* vp : mesh.vertices()) { if (vp==p) { idx=k; break; } ++k; }
-            out.push_back(idx);
+    {
+        Mesh mesh;
+        MeshIO* io = nullptr;
+        ll st = guarded_code([&]{ io = MeshIO::create(path); io->open(std::ios_base::in); io->load_points(mesh.geometry()); io->load_triangles(mesh); });
+        out.push_back(st);
+        if (st==0) {
+            if (mesh.vertices().size()>MAXOUT || mesh.triangles().size()>MAXOUT) { out.push_back(-7); }
+            else {
+                out.push_back(mesh.vertices().size());
+                for (const auto* vp : mesh.vertices()) for (int c=0;c<3;++c) out.push_back(d2w((*vp)(c)));
+                out.push_back(mesh.triangles().size());
+                for (const auto& t : mesh.triangles()) for (int c=0;c<3;++c) {
+                    const Vertex* p = &t.vertex(c); ll idx=-1; ll k=0;
+                    for (const auto* vp : mesh.vertices()) { if (vp==p) { idx=k; break; } ++k; }
+                    out.push_back(idx);
+                }
+            }
         }
-        (void)vs;
+        delete io;
     }
+    { Mesh mesh; out.push_back(guarded_code([&]{ mesh.load(path,false); })); }
     return out;
 }
 
@@ -179,7 +186,7 @@ static Wire c07(Reader& r) {
     switch (op) {
     case 1: {   // rt: fmt obj targetkind -> [save status, nbytes, bytes..., load outcome]
         int fmt=(int)r.n(); Obj o; getObj(r,o); int tk=(int)r.n();
-        std::string p = fname("rt",fmt); std::remove(p.c_str());
+        std::string p = fname("omfile_rt",fmt); std::remove(p.c_str());
         Wire out; ll st = guarded_code([&]{ saveObj(o,p.c_str()); });
         out.push_back(st);
         if (st!=0) return out;
@@ -188,7 +195,7 @@ static Wire c07(Reader& r) {
         loadOutcome(out,tk,p.c_str());
         return out; }
     case 2: {   // ld: fmt targetkind nbytes bytes... -> load outcome, in a child process
-        int fmt=(int)r.n(); int tk=(int)r.n(); std::string p = fname("ld",fmt); spit(p.c_str(),r);
+        int fmt=(int)r.n(); int tk=(int)r.n(); std::string p = fname("omfile_ld",fmt); spit(p.c_str(),r);
         return in_child([&]{ Wire out; loadOutcome(out,tk,p.c_str()); return out; }); }
     case 3: {   // order in which the registered formats are tried by auto-detection
         Wire out{0};
@@ -211,11 +218,25 @@ static Wire c07(Reader& r) {
         Wire out; loadOutcome(out,tk,p.c_str()); return out; }
     case 8: {   // rtm: MATLAB round trip in a child (libmatio may abort): obj targetkind -> [save status, load outcome]
         Obj o; getObj(r,o); int tk=(int)r.n();
-        return in_child([&]{ std::string p = fname("rtm",3); std::remove(p.c_str());
+        return in_child([&]{ std::string p = fname("omfile_rtm",3); std::remove(p.c_str());
             Wire out; ll st = guarded_code([&]{ saveObj(o,p.c_str()); }); out.push_back(st); if (st==0) loadOutcome(out,tk,p.c_str()); return out; },20); }
     case 10: {  // mesh: mfmt nbytes bytes... -> mesh load outcome, in a child process
-        int mf=(int)r.n(); std::string p = std::string("m.")+MSUFFIX[mf]; spit(p.c_str(),r);
+        int mf=(int)r.n(); std::string p = std::string("omfile_m.")+MSUFFIX[mf]; spit(p.c_str(),r);
         return in_child([&]{ return meshOutcome(p.c_str()); }); }
+    case 12: {  // geo: which(0 geom,1 cond,2 sensors,3 dipoles) nbytes bytes... -> outcome class, in a child (files of Head1 are in cwd)
+        int which=(int)r.n();
+        const char* names[] = { "m.geom", "m.cond", "m.squids", "m.dip" };
+        spit(names[which],r);
+        return in_child([&]{ Wire out;
+            ll st = guarded_code([&]{
+                switch (which) {
+                case 0: { Geometry g; g.load("m.geom","Head1.cond"); out.push_back(g.meshes().size()); out.push_back(g.domains().size()); break; }
+                case 1: { Geometry g; g.load("Head1.geom","m.cond"); out.push_back(g.domains().size()); break; }
+                case 2: { Sensors sn("m.squids"); out.push_back(sn.getNumberOfSensors()); break; }
+                case 3: { Matrix d("m.dip"); out.push_back(d.nlin()); out.push_back(d.ncol()); break; }
+                }
+            });
+            out.insert(out.begin(),st); if (st!=0) out.resize(1); return out; }); }
     }
     throw Reader::Malformed();
 }
